@@ -784,6 +784,65 @@ func ruleFieldsRecorded(c *Ctx) {
 			n++
 			key := funcName(fn.Obj) + "→" + exprStr(as.Lhs[0]) + " = append(…)"
 			al := fg.LocOf(as)
+			if al.Valid() && len(recLocs) == 0 {
+				// a helper that only stores (fill): the recording lies in front of every call of it
+				sites, all := 0, true
+				for _, caller := range c.AllFuncs("internal/server") {
+					if caller.Decl.Body == nil || caller.Obj == fn.Obj {
+						continue
+					}
+					cinfo := caller.Info()
+					var cfgc *FlowGraph
+					inspectNoLit(caller.Decl.Body, func(x ast.Node) bool {
+						call, ok := x.(*ast.CallExpr)
+						if !ok || callee(cinfo, call) != fn.Obj {
+							return true
+						}
+						sites++
+						if cfgc == nil {
+							cfgc = newFlowGraph(cinfo, caller.Decl.Body)
+						}
+						cl := cfgc.LocOfOuter(call)
+						dom := false
+						ast.Inspect(caller.Decl.Body, func(y ast.Node) bool {
+							rc, ok := y.(*ast.CallExpr)
+							if !ok {
+								return true
+							}
+							rse, ok := ast.Unparen(rc.Fun).(*ast.SelectorExpr)
+							direct := ok && rse.Sel.Name == "Insert" && selField(cinfo, rse.X) == fkeys
+							via := false
+							if g := callee(cinfo, rc); g != nil && g != caller.Obj && recorders[g] {
+								via = true
+							}
+							if !direct && !via {
+								return true
+							}
+							var anchor ast.Node = rc
+							for p := c.Parent(rc); p != nil; p = c.Parent(p) {
+								if _, isDecl := p.(*ast.FuncDecl); isDecl {
+									break
+								}
+								if ifs, ok := p.(*ast.IfStmt); ok && enclosingFuncLit(c.Program, ifs) == nil {
+									anchor = ifs.Cond
+								}
+							}
+							if rl := cfgc.LocOfOuter(anchor); rl.Valid() && cl.Valid() && cfgc.Dominates(rl, cl) {
+								dom = true
+							}
+							return true
+						})
+						if !dom {
+							all = false
+						}
+						return true
+					})
+				}
+				if sites > 0 && all {
+					c.ok(key, as.Pos(), true, "the recording of the object's field names (or its guard) lies in front of every call of this storing helper")
+					continue
+				}
+			}
 			if !al.Valid() || len(recLocs) == 0 {
 				c.bad(key, as.Pos(), "an object is kept for the reply but its field names are never recorded in %s: the JSON reply omits fields the RESP reply shows", "scanWriter.fkeys")
 				continue
